@@ -121,14 +121,35 @@ def run(rep, tier):
             if c.args[0] == m2:
                 return "offdiag(box)==0"
         return fo.cond_str(c)
-    table = {}
-    for val, guards, _ in fo.returns:
-        table[tuple((cname(g), pol) for g, pol, _ in guards)] = str(val).split("::")[-1]
-    c1, c2 = "box==0", "offdiag(box)==0"
-    want_tab = {((c1, True),): "typeOpen", ((c1, False), (c2, True)): "typeOrthorhombic",
-                ((c1, False), (c2, False)): "typeTriclinic"}
-    rep.check(table == want_tab, "R2.4", "autodetect", "zero->open, off-diagonal zero->orthorhombic, else triclinic",
-              "autoDetectBoxType decision table is %s" % {" & ".join(("" if p else "!") + g[:60] for g, p in k): v for k, v in table.items()},
+    # decided by cases of the two predicates the function may consult (whatever its control structure: if-chain, early returns, ?:)
+    from vsa.cases import decide, resolve_ite
+    cds = getattr(fo, "conds", {})
+
+    def box_orc(lf):
+        nm = cname(lf) if not isinstance(lf, tuple) else None
+        if nm == "box==0":
+            return ("ZERO", True)
+        if nm == "offdiag(box)==0":
+            return ("DIAG", True)
+        return None
+    table, und = {}, None
+    for zero, diag, want in ((True, True, "typeOpen"), (True, False, "typeOpen"), (False, True, "typeOrthorhombic"), (False, False, "typeTriclinic")):
+        A = {"ZERO": zero, "DIAG": diag}
+        got = None
+        for val, guards, _ in fo.returns:
+            ts = [decide(g, None, A, box_orc, cds) for g, _p, _n in guards]
+            if any(t_ is None for t_ in ts):
+                und = "cannot decide the path condition %s" % [fo.cond_str(g)[:80] for g, _p, _n in guards]
+                break
+            if all(t_ == p_ for t_, (_g, p_, _n) in zip(ts, guards)):
+                v_ = resolve_ite(val, lambda cs: decide(cds[cs], None, A, box_orc, cds) if cs in cds else None) if hasattr(val, "args") else val
+                got = str(v_).split("::")[-1]
+                break
+        table["%s%s" % ("zero box" if zero else "non-zero box", "" if zero else (", off-diagonal zero" if diag else ", off-diagonal non-zero"))] = (got, want)
+    if und:
+        raise AnalysisBroken("autoDetectBoxType: " + und)
+    rep.check(all(g_ == w_ for g_, w_ in table.values()), "R2.4", "autodetect", "zero->open, off-diagonal zero->orthorhombic, else triclinic",
+              "autoDetectBoxType decides %s" % {k_: "%s (required %s)" % v_ for k_, v_ in table.items() if v_[0] != v_[1]},
               fa.loc(), sample=True)
     # setBox: switch over the box type
     fsb = F.one(T + "setBox")
